@@ -5,11 +5,11 @@ ROOT = os.path.dirname(os.path.dirname(os.path.abspath(__file__)))
 SOLVER = 'symbolic execution of the real source (verif.see) + SMT (z3 5.1) equivalence against an independent oracle circuit'
 CHECKS = {
     'C01': dict(cat='model_checking', ref='4/C01',
-                text='CTL.modelcheck and everything below it is executed symbolically from source on a Kripke structure whose transition and label bits are unknowns: one merged run per formula covers every total structure with n<=3 states over {p,q} (n=4 with label bits forked). z3 proves the result vector equal to an independently built CTL fixpoint circuit, absence of exceptions and complete unrolling; ~2,300 formulas quick (depth<=2), more in thorough; label-independent formulas at n=4 cover every 4-state structure in one fork. The formula dimension is enumeration of programs.',
+                text='CTL.modelcheck and everything below it is executed symbolically from source on a Kripke structure whose transition and label bits are unknowns: one merged run per formula covers every total structure with n<=3 states over {p,q} (n=4 with label bits forked). z3 proves the result vector equal to an independently built CTL fixpoint circuit, absence of exceptions and complete unrolling; ~3,000 formulas quick (depth<=2 and a depth-3 slice), ~12,000 in thorough; E G p, A(p U q), E(p R q) on all 256 label forks at n=4 (every 4-state structure), label-independent formulas at n=4 in one fork. The formula dimension is enumeration of programs.',
                 note='bounded: n<=3 merged, n=4 sampled forks (all 256 in thorough); 2 atoms; formulas from stated sets; evaluator/simplifier trusted but audited (all rewrite lemmas re-proved per run, 13 raw n=2 runs, translator validation vs native)',
                 tech=SOLVER),
     'C02': dict(cat='model_checking', ref='4/C02',
-                text='LTL.modelcheck (closure, atom construction, tableau, SCCs, reachability) executed symbolically; per formula A g one merged run covers all total structures with n<=2 states (n=3 for small formulas in thorough); z3 proves equality with a product/Emerson-Lei oracle circuit whose fixpoint stability is itself a solver obligation; the oracle\'s exclusions are certified by solver-found concrete lassos re-evaluated by an independent lasso evaluator.',
+                text='LTL.modelcheck (closure, atom construction, tableau, SCCs, reachability) executed symbolically; per formula A g one merged run covers all total structures with n<=2 states (n=3 for one formula per temporal operator in quick, 85 formulas in thorough); z3 proves equality with a product/Emerson-Lei oracle circuit whose fixpoint stability is itself a solver obligation; the oracle\'s exclusions are certified by solver-found concrete lassos re-evaluated by an independent lasso evaluator.',
                 note='bounded: n<=2 (3), 2 atoms, ~1,300 path formulas (all of depth<=2, every unary chain of depth 3, n-ary and/or, seeded depth-3 ones), cost cut by number of elementary formulas e<=3 (4 at n=1); no raw (un-reduced) run possible for the tableau; /repo at fix commits dce0478+a1b7f49',
                 tech=SOLVER),
     'C03': dict(cat='model_checking', ref='4/C03',
@@ -21,59 +21,59 @@ CHECKS = {
                 note='bounded: n<=3 (2 where the tableau runs); formula pairs from stated sets; catches an implementation and the oracle of C01-C03 being wrong in the same way',
                 tech='symbolic execution of the real source (verif.see) + SMT (z3 5.1) equivalence between implementation circuits'),
     'C05': dict(cat='model_checking', ref='4/C05',
-                text='get_equivalent_restricted_formula and LNot run natively on ~3,400 enumerated formulas (operator pairs and triples over distinct atoms, unary chains) of the three logics; input and output formula are both translated by the reference semantics into circuits over symbolic models and z3 searches for a distinguishing model: every total Kripke structure with 3 states (state formulas) and every (k,l)-lasso with k<=5 (path formulas). Output alphabet and "no leading double negation" are checked on the trees.',
+                text='get_equivalent_restricted_formula and LNot run natively on ~5,000 enumerated formulas (operator pairs and triples over distinct atoms, unary chains, every depth-3 shape with a binary operator below or between unary ones) of the three logics; input and output formula are both translated by the reference semantics into circuits over symbolic models and z3 searches for a distinguishing model: every total Kripke structure with 3 states (state formulas) and every (k,l)-lasso with k<=5 (path formulas). Output alphabet and "no leading double negation" are checked on the trees.',
                 note='no model-checking code is involved; formula dimension is enumeration of programs; known finding D12 (LTL A-rooted formulas raise AttributeError) is excluded by construction and reported',
                 tech='SMT (z3 5.1) equivalence of two oracle circuits over symbolic models; rewriters run natively'),
     'C06': dict(cat='model_checking', ref='4/C06',
-                text='The exactness obligations of C01-C03 re-decided under varied presentation: all 6 orders of presenting/iterating 3 states, states renamed to strings/tuples/mixed types, atoms renamed, seeded global orders of formula sets (tie order of the closure sort; models the hash seed) incl. CTL* formulas that reach the tableau, and an unreachable extra state; the oracle is presentation-independent, so unsat for all is invariance.',
+                text='The exactness obligations of C01-C03 re-decided under varied presentation: all 6 orders of presenting/iterating 3 states, 6 (23 thorough) orders of 4 states for the EG-type formulas over all 16 p-labellings, states renamed to strings/tuples/mixed types, atoms renamed, seeded global orders of formula sets (tie order of the closure sort; models the hash seed) incl. CTL* formulas that reach the tableau, and an unreachable extra state; the oracle is presentation-independent, so unsat for all is invariance.',
                 note='order model = one global order per run (per-site independent orders outside); PYTHONHASHSEED as a process setting is not what the solver decides -- it is modelled through the order of sets; sample of 4 (24 thorough) formula-set orders',
                 tech=SOLVER + ', iteration order forked'),
     'C07': dict(cat='model_checking', ref='4/C07',
-                text='Heap obligations on the symbolic runs of all three checkers (with/without F, text/object): z3 proves every bit of the caller\'s structure (successor sets, label sets incl. new atoms, S0, object identities) equals its pre-call snapshot; result shares no set with K; formula prints unchanged; call / call-on-other-structure-with-same-formula / call returns equal vectors; call / mutate result / call returns equal vectors; call / the caller edits K in place / call returns the answer for the edited structure (module-level containers of the interpreted modules persist across the calls of a run).',
-                note='bounded: n<=3; histories of length 3; writes to module globals or class attributes would make the run inconclusive rather than be modelled',
+                text='Heap obligations on the symbolic runs of all three checkers (with/without F, text/object): z3 proves every bit of the caller\'s structure (successor sets, label sets incl. new atoms, S0, object identities) equals its pre-call snapshot; result shares no set with K; formula prints unchanged; call / call-on-other-structure-with-same-formula / call returns equal vectors; call / same checker with the OTHER kind of arguments (with F if this call has none, without if it has one) on another structure / call returns equal vectors; call / mutate result / call returns equal vectors; call / the caller edits K in place / call returns the answer for the edited structure (module-level containers and names rebound through `global` persist across the calls of a run).',
+                note='bounded: n<=3; histories of length 3; class attributes rebound at run time are not modelled (such a tree would make the run inconclusive)',
                 tech=SOLVER + ' (heap snapshot equality)'),
     'C08': dict(cat='model_checking', ref='4/C08',
-                text='Solver part: the acceptance behaviour of the real constructors is a finite local table (operator x operand classes) regenerated on every run by executing them on class representatives; a symbolic complete binary operator tree over the union alphabet (depth<=5, 63 positions) is evaluated once with that table (buildable / castable into the language) and once with the documented grammar (state / path / A-rooted / not a formula); z3 searches for a tree where they differ, for each of PL, CTL, LTL, CTL*. Exploration part (natively): ~5,800 trees built with the real constructors, ~7,000 casts between the four languages (same shape, nodes of the target module, TypeError exactly when undocumented), 13 modelcheck guard cases.',
+                text='Solver part: the acceptance behaviour of the real constructors is a finite local table (operator x operand classes) regenerated on every run by executing them on class representatives; a symbolic complete binary operator tree over the union alphabet (depth<=5, 63 positions) is evaluated once with that table (buildable / castable into the language) and once with the documented grammar (state / path / A-rooted / not a formula); z3 searches for a tree where they differ, for each of PL, CTL, LTL, CTL*. Exploration part (natively): ~30,000 trees (all of depth<=1, a large part of depth 2, every unary chain of depth 3, sampled depth 4) built with the real constructors, ~100,000 casts between the four languages (same shape, nodes of the target module, TypeError exactly when undocumented), 13 modelcheck guard cases.',
                 note='arity-respecting trees only: wrong-arity constructions are OPEN known finding D11; the locality assumption behind the table is what the native exploration validates',
                 tech='decision table extracted from the live constructors + SAT (z3 5.1) over all operator trees of bounded depth; native exploration for casts and guards'),
     'C09': dict(cat='model_checking', ref='4/C09',
-                text='Solver part: the grammar of printed forms is extracted on every run from the real __str__ methods; over a symbolic lexeme string (<=10 lexemes quick, 12 thorough) a CYK table with explicit justifications is built and z3 searches for a string with two different derivations (two trees printing identically), and for a printed form (<=4/5 lexemes) that the LALR automaton extracted from the live parser rejects. Exploration part (natively): Parser()(str(f)) structurally equal to f on ~4,800 enumerated formulas of PL/LTL/CTL*/CTL (cast to CTL*) over a lexer-stressing atom pool.',
+                text='Solver part: the grammar of printed forms is extracted on every run from the real __str__ methods; over a symbolic lexeme string (<=10 lexemes quick, 12 thorough) a CYK table with explicit justifications is built and z3 searches for a string with two different derivations (two trees printing identically), and for a printed form (<=4/5 lexemes) that the LALR automaton extracted from the live parser rejects. The premise of that grammar model -- printing is compositional on every (operator, arity, position, class of operand) context -- is checked on every run, and all 100-230k trees of height<=2 per logic are grouped by printed form. Exploration part (natively): Parser()(str(f)) structurally equal to f on ~4,800 enumerated formulas of PL/LTL/CTL*/CTL (cast to CTL*) over a lexer-stressing atom pool.',
                 note='printed length bound, not depth bound; atoms identifier-style and not reserved; tree equality of the round trip is enumeration',
                 tech='grammar extracted from the live printers + SAT (z3 5.1) bounded ambiguity / inclusion; native round trips'),
     'C10': dict(cat='model_checking', ref='4/C10',
-                text='The LALR table and contextual-lexer decisions are extracted from the live Parser() of each logic on every run; the parser loop on a symbolic lexeme string (<=4 lexemes quick, 5 thorough; 14-21 lexemes incl. all operator spellings, identifiers, an escaped string) is a step-indexed transition system with explicit stack; the documented grammar is a CYK table over the same string; z3 proves accepts(w) -> documented(w), that every run terminates without stack overflow; solver-enumerated accepted and rejected strings are replayed through the real parser (formula of exactly that logic / UnexpectedToken|UnexpectedCharacters with position inside the input), the escaped-string lexeme instantiated with 11 contents (quotes, backslashes, malformed escapes); ~470 cross-fed strings natively.',
-                note='token level only: character-level lexing and strings longer than L lexemes are outside; Lark is never interpreted, its table is taken as the definition of the real parser and validated by the replays',
-                tech='parser automaton extracted from the live objects + SAT (z3 5.1) bounded language inclusion against a CYK encoding of the documented grammar'),
+                text='The LALR table and contextual-lexer decisions are extracted from the live Parser() of each logic on every run; the parser loop on a symbolic lexeme string (<=4 lexemes quick, 5 thorough; 14-21 lexemes incl. all operator spellings, identifiers, an escaped string) is a step-indexed transition system with explicit stack; the documented grammar is a CYK table over the same string; z3 proves accepts(w) -> documented(w), that every run terminates without stack overflow; solver-enumerated accepted and rejected strings are replayed through the real parser (formula of exactly that logic / UnexpectedToken|UnexpectedCharacters with position inside the input), the escaped-string lexeme instantiated with 11 contents (quotes, backslashes, malformed escapes) and every witness under 6 whitespace layouts; ~470 cross-fed strings natively. The position arithmetic between Lark\'s error and the raised ParserError is decided by CrossHair on a symbolic character string (<=4 chars quick, 6 thorough; Lark stubbed by its contract 0 <= pos_in_stream <= len): matching error class, 0 <= pos <= len(input), input unchanged.',
+                note='automaton query is token level: character-level lexing and strings longer than L lexemes are outside it; Lark is never interpreted, its table is taken as the definition of the real parser and validated by the replays',
+                tech='parser automaton extracted from the live objects + SAT (z3 5.1) bounded language inclusion against a CYK encoding of the documented grammar; CrossHair (symbolic str, z3) for the error-position arithmetic'),
     'C11': dict(cat='model_checking', ref='4/C11',
-                text='Formula.__eq__/__hash__ are defined through str(), so "f == g iff same tree" is injectivity of printing: decided by z3 on the printed-form grammar extracted from the real __str__ methods (<=10/12 lexemes, shared machinery with C09). Symmetry, transitivity, hash/set/dict behaviour, clone independence and Bool-vs-bool in both directions are explored natively over ~270k pairs and 12k triples; CrossHair checks three __eq__/__hash__ conditions with symbolic atom names.',
+                text='Formula.__eq__/__hash__ are defined through str(), so "f == g iff same tree" is injectivity of printing: decided by z3 on the printed-form grammar extracted from the real __str__ methods (<=10/12 lexemes, shared machinery with C09, incl. the per-run check that printing is compositional and the grouping of all height<=2 trees by printed form). Symmetry, transitivity, hash/set/dict behaviour, clone independence and Bool-vs-bool in both directions are explored natively over ~270k pairs and 12k triples; CrossHair checks three __eq__/__hash__ conditions with symbolic atom names.',
                 note='pairs/triples are enumeration; atoms not reserved words; CrossHair conditions that are not "confirmed over all paths" are reported as such',
                 tech='SAT (z3 5.1) bounded unambiguity of the extracted printed-form grammar; CrossHair (symbolic str) for __eq__/__hash__; native pair/triple walk'),
     'C12': dict(cat='model_checking', ref='4/C12',
-                text='compute_SCCs is executed symbolically from its source on a graph whose edge bits are unknowns: one merged run per node order covers all 2^(n*n) digraphs (n<=4 quick; n=5 with 9 forked bits and all 24 orders at n=4 thorough). The solver proves partition + mutual-reachability equivalence against a Warshall oracle circuit, absence of exceptions and complete loop unrolling; sat models are replayed natively.',
-                note='bounded: n<=4 (5 thorough); one global iteration order per run; evaluator and simplifier trusted but audited (rewrite lemmas re-proved, n=2 raw run, translator validation vs native on 150 random graphs)',
+                text='compute_SCCs is executed symbolically from its source on a graph whose edge bits are unknowns: one merged run per node order covers all 2^(n*n) digraphs (n<=4 quick plus every loop-free 5-node graph and 24 seeded forks with self-loops; all 512 forks at n=5 and all 24 orders at n=4 thorough); three runs with None / str / tuple / frozenset / float node values. The solver proves partition + mutual-reachability equivalence against a Warshall oracle circuit, absence of exceptions and complete loop unrolling; sat models are replayed natively.',
+                note='bounded: n<=4 complete, n=5 loop-free complete (all of n=5 in thorough); one global iteration order per run; evaluator and simplifier trusted but audited (rewrite lemmas re-proved, n=2 raw run, translator validation vs native on 150 random graphs)',
                 tech=SOLVER),
     'C13': dict(cat='model_checking', ref='4/C13',
-                text='get_reachable_set_from (n<=5), get_reversed_graph (once, twice, and again after the receiver was modified), get_subgraph and clone (n<=5, 6 thorough) run symbolically WITHOUT functional reduction on all digraphs and all node subsets; solver proves equality with closure / flipped matrix / induced subgraph circuits and that the receiver is unchanged and shares no set object.',
+                text='get_reachable_set_from (n<=5), get_reversed_graph (once, twice, and again after the receiver was modified), get_subgraph and clone (n<=5, 6 thorough) run symbolically WITHOUT functional reduction on all digraphs and all node subsets, with nodes 0..n-1 and under three further universes of node values (tuples incl. () and a nested one; None/str/frozenset/float; str/tuple/negative int); solver proves equality with closure / flipped matrix / induced subgraph circuits and that the receiver is unchanged and shares no set object.',
                 note='bounded: n<=5/6; all nodes present, subsets may name one non-node; raw circuits decided by z3',
                 tech=SOLVER + ' (raw circuits, no simplifier)'),
     'C14': dict(cat='model_checking', ref='4/C14',
-                text='Kripke.__init__, labels/next, clone and get_substructure executed symbolically with symbolic membership of S, R, S0, symbolic keys/values of L and a symbolic subset V over a 3-value universe (+1 never-a-state value): z3 proves "raises RuntimeError <=> some node has no successor", no other exception type, exact contents of the constructed/cloned/induced structure, label sets are copies, receiver unchanged, and the accessor contract again after replace_labelling_function with symbolic keys and a non-state key. 80 forks x 2^15-2^16 argument combinations.',
+                text='Kripke.__init__, labels/next, clone and get_substructure executed symbolically with symbolic membership of S, R, S0, symbolic keys/values of L and a symbolic subset V over a 3-value universe (+1 never-a-state value) for three choices of the state values (ints; tuples (0,0),(0,1),(); mixed str/tuple/int): z3 proves "raises RuntimeError <=> some node has no successor", no other exception type, exact contents of the constructed/cloned/induced structure, label sets are copies, receiver unchanged, and the accessor contract again after replace_labelling_function with symbolic keys and a non-state key. 240 forks x 2^15-2^16 argument combinations. A state whose value is None is OPEN known finding D16 (labels(None) is the whole-structure form) and is outside the universes.',
                 note='bounded: universe of 3 (+1), one atom; /repo at fix commit 36a2c0d',
                 tech=SOLVER),
     'C15': dict(cat='model_checking', ref='4/C15',
-                text='get_fair_states and CTL/CTLS.modelcheck(K,f,F) executed symbolically with symbolic fairness sets (|F|<=2) and compared by z3 with an Emerson-Lei fair-semantics oracle. Holds and is decided: get_fair_states is a subset of the fair states on every input; equality and modelcheck==fair semantics outside the classes of the four OPEN known findings D7-D10 (class predicates are conjoined negated to the violation query; each listed witness is re-found natively and printed as KNOWN-FINDING); F=[] and F=[S] equal the unconstrained answer; no exception and K unchanged also inside the classes.',
-                note='bounded: n<=3 (two atoms), |F|<=2, ~150 CTL formulas without constants; genuine defects D7-D10 are recorded, not repaired (reasons in known_findings.json / DESIGN.md section 5); /repo at fix commit 3d1a560',
+                text='get_fair_states and CTL/CTLS.modelcheck(K,f,F) executed symbolically with symbolic fairness sets (|F|<=2) and compared by z3 with an Emerson-Lei fair-semantics oracle. Holds and is decided: get_fair_states is a subset of the fair states AND closed under predecessors on every input (n<=4); equality and modelcheck==fair semantics outside the classes of the four OPEN known findings D7-D10 (class predicates are conjoined negated to the violation query; each listed witness is re-found natively and printed as KNOWN-FINDING); F=[] and F=[S] equal the unconstrained answer; no exception and K unchanged also inside the classes.',
+                note='bounded: n<=3 (two atoms; get_fair_states itself n<=4 with |F|<=1), |F|<=2, ~150 CTL formulas without constants; genuine defects D7-D10 are recorded, not repaired (reasons in known_findings.json / DESIGN.md section 5); /repo at fix commit 3d1a560',
                 tech=SOLVER),
     'C16': dict(cat='model_checking', ref='4/C16',
-                text='The real unique table (BDDNode/BDDNonTerminalNode/BDDTerminalNode.__new__, find_isomorph, __reset__), apply/compute, __invert__, restrict and the OBDD wrappers run symbolically with the truth-table bits of two functions as unknowns: one merged run covers all ordered pairs (2 variables: all ops; 3 variables: all 65,536 pairs for construction, &,|,^ with one operand pinned to each literal/constant in quick, all pairs in thorough). z3 proves identical root <=> equal tables, OBDD.__eq__ agrees, and no two live non-terminals share (var, low, high). Histories of any length with dropping and collection are covered by ONE INDUCTIVE STEP: from an arbitrary pool of <=4 (6 thorough) nodes, each live or collected, satisfying the representation invariant (reduced, unique triples, parent sets = live parents), BDDNonTerminalNode(var, low, high) with arbitrary live arguments returns low / the isomorphic live node / a fresh registered node, touches nothing else, and the invariant holds again (raw circuits, ~30-50 unknowns).',
-                note='garbage collection enters only through the WeakSet contract (a collected node is absent from every parent set): CPython finalisation order and a collection during find_isomorph\'s iteration are not modelled; native creation/drop/collect histories (25 seeded random ones and ~800 scripted two-route ones) are exploration and are reported as such, a failing history is replayed in a fresh interpreter; canonicity of results of operations is decided for <=3 variables only',
+                text='The real unique table (BDDNode/BDDNonTerminalNode/BDDTerminalNode.__new__, find_isomorph, __reset__), apply/compute, __invert__, restrict and the OBDD wrappers run symbolically with the truth-table bits of two functions as unknowns: one merged run covers all ordered pairs (2 variables: all ops; 3 variables: all 65,536 pairs for construction, &,|,^ with one operand pinned to each literal/constant in quick, all pairs in thorough; 4 variables: one operand pinned to a literal or to one of 4 (8 + 24 seeded in thorough) non-literal functions and the other arbitrary, restrict on each variable for all 65,536 functions). z3 proves identical root <=> equal tables, OBDD.__eq__ agrees, and no two live non-terminals share (var, low, high). Histories of any length with dropping and collection are covered by ONE INDUCTIVE STEP: from an arbitrary pool of <=4 (6 thorough) nodes, each live or collected, satisfying the representation invariant (reduced, unique triples, parent sets = live parents), BDDNonTerminalNode(var, low, high) with arbitrary live arguments returns low / the isomorphic live node / a fresh registered node, touches nothing else, and the invariant holds again (raw circuits, ~30-50 unknowns).',
+                note='garbage collection enters only through the WeakSet contract (a collected node is absent from every parent set): CPython finalisation order and a collection during find_isomorph\'s iteration are not modelled; native creation/drop/collect histories (25 seeded random ones and ~800 scripted two-route ones) are exploration and are reported as such, a failing history is replayed in a fresh interpreter; canonicity of results of binary operations is decided for all pairs up to 3 variables and for pinned-operand slices at 4',
                 tech=SOLVER.replace('an independent oracle circuit', 'truth-table oracle circuits')),
     'C17': dict(cat='model_checking', ref='4/C17',
                 text='On the same symbolic runs z3 proves that f&g, f|g, f^g, ~f and f.restrict(v,b) denote the pointwise operation / cofactor on every assignment for every function (pair) of the bound, that every node reachable from a result is reduced and ordered, double negation returns the identical root, and variables() is exactly the support. RuntimeError clauses are examined natively on 6 cases.',
-                note='bounded: 2 variables all ops, 3 variables unary ops and binary ops with one literal operand (all pairs in thorough), 4 variables unary in thorough; two orderings',
+                note='bounded: 2 variables all ops; 3 variables unary ops and binary ops with one literal operand (all pairs in thorough); 4 variables: restrict per variable and binary ops with one pinned operand in quick, ~ and variables() in thorough; two orderings',
                 tech=SOLVER.replace('an independent oracle circuit', 'truth-table oracle circuits')),
     'C18': dict(cat='model_checking', ref='4/C18',
-                text='Solver part: the real expression parser runs on a SYMBOLIC ast tree (depth<=2 over & | and or ~ not, n-ary and; leaves a b c 0 1 True False and a variable outside the ordering): the operator skeleton is forked (512 runs) and the four leaves are merged, so each run covers 4,096 trees; z3 proves RuntimeError is raised exactly when a used leaf is outside the ordering, and otherwise the diagram denotes the expression on all assignments, is well-formed, nothing else raises. Exploration part (natively, enumeration): lambda vs expression notation and keyword synonyms over enumerated texts x 2 argument orders; str() round trip for EVERY function of 3 variables x 6 orderings and 3,000 seeded 4-variable functions; ~1,800 error-propagation expressions; 16 error cases.',
+                text='Solver part: the real expression parser runs on a SYMBOLIC ast tree (depth<=2 over & | and or ~ not, n-ary and; leaves a b c 0 1 True False and a variable outside the ordering): the operator skeleton is forked (512 runs) and the four leaves are merged, so each run covers 4,096 trees; keyword chains `x1 and ... and xk` (ONE BoolOp with k=3..6 operands, 7 in thorough, every operand an arbitrary leaf) are separate runs; z3 proves RuntimeError is raised exactly when a used leaf is outside the ordering, and otherwise the diagram denotes the expression on all assignments, is well-formed, nothing else raises. Exploration part (natively, enumeration): lambda vs expression notation and keyword synonyms over enumerated texts x 2 argument orders; str() round trip for EVERY function of 3 variables x 6 orderings and 3,000 seeded 4-variable functions; ~1,800 error-propagation expressions; 16 error cases.',
                 note='the round-trip, lambda-notation and error clauses are exploration (each native run pins its input), reported separately in evidence; /repo at fix commits 0348f4e, 6cbd413, df24c68',
                 tech=SOLVER + ' for the parser; exhaustive native enumeration for printing round trips'),
     'C19': dict(cat='model_checking', ref='4/C19',
